@@ -29,8 +29,19 @@ type MPat struct {
 	Slash bool     `json:"slash"`
 }
 type MExtra struct {
-	Pat MPat   `json:"pat"`
-	Tag string `json:"tag"`
+	Pat  MPat   `json:"pat"`
+	Tag  string `json:"tag"`
+	Host string `json:"host"` // "" = any host
+	Meth string `json:"meth"` // "" = any method
+}
+
+// the pattern text HTTPHandlerOption gets: [METHOD ][HOST]/path
+func extraText(e MExtra) string {
+	t := e.Host + patText(e.Pat)
+	if e.Meth != "" {
+		t = e.Meth + " " + t
+	}
+	return t
 }
 type MountCase struct {
 	ID       int      `json:"id"`
@@ -47,6 +58,9 @@ type MountEv struct {
 	Patterns []MPat   `json:"patterns"`
 	Extras   []MExtra `json:"extras"`
 	Path     []string `json:"path"`
+	Host     string   `json:"host"`
+	Meth     string   `json:"meth"`
+	Query    string   `json:"query"`
 	Proto    string   `json:"proto"`
 	Got      string   `json:"got"`
 	GotTag   string   `json:"gottag"`
@@ -70,6 +84,8 @@ type mprobe struct {
 	path  []string
 	body  []byte
 	hdr   map[string]string
+	query string
+	host  string
 }
 
 func mountProbes() []mprobe {
@@ -77,16 +93,19 @@ func mountProbes() []mprobe {
 	j := marshalMsg("json", m)
 	p := marshalMsg("proto", m)
 	return []mprobe{
-		{"http", "POST", []string{"t", "unary"}, j, map[string]string{"Content-Type": "application/json"}},
-		{"http", "GET", []string{"t", "get", "abc"}, nil, nil},
-		{"http", "GET", []string{"t", "nosuch"}, nil, nil},
-		{"http", "POST", []string{"t", "sstream"}, j, map[string]string{"Content-Type": "application/json"}},
-		{"twirp", "POST", []string{"vs.T", "Unary"}, j, map[string]string{"Content-Type": "application/json", "Twirp-Version": "v7"}},
-		{"twirp", "POST", []string{"vs.T", "Nope"}, j, map[string]string{"Content-Type": "application/json", "Twirp-Version": "v7"}},
-		{"grpc", "POST", []string{"vs.T", "Unary"}, grpcFrame(p, false), map[string]string{"Content-Type": "application/grpc+proto", "Te": "trailers"}},
-		{"grpc", "POST", []string{"vs.T", "Bidi"}, append(grpcFrame(p, false), grpcFrame(p, false)...), map[string]string{"Content-Type": "application/grpc+proto", "Te": "trailers"}},
-		{"grpcweb", "POST", []string{"vs.T", "Unary"}, grpcFrame(p, false), map[string]string{"Content-Type": "application/grpc-web+proto"}},
-		{"grpcweb", "POST", []string{"vs.T", "Nope"}, grpcFrame(p, false), map[string]string{"Content-Type": "application/grpc-web+proto"}},
+		{proto: "http", meth: "POST", path: []string{"t", "unary"}, body: j, hdr: map[string]string{"Content-Type": "application/json"}},
+		{proto: "http", meth: "GET", path: []string{"t", "get", "abc"}},
+		{proto: "http", meth: "GET", path: []string{"t", "get", "abc"}, query: "t=from-query&i=7"},
+		{proto: "http", meth: "POST", path: []string{"t", "unary"}, body: j, hdr: map[string]string{"Content-Type": "application/json"}, query: "i=9"},
+		{proto: "http", meth: "GET", path: []string{"t", "get", "abc"}, host: "admin.test"},
+		{proto: "http", meth: "GET", path: []string{"t", "nosuch"}},
+		{proto: "http", meth: "POST", path: []string{"t", "sstream"}, body: j, hdr: map[string]string{"Content-Type": "application/json"}},
+		{proto: "twirp", meth: "POST", path: []string{"vs.T", "Unary"}, body: j, hdr: map[string]string{"Content-Type": "application/json", "Twirp-Version": "v7"}},
+		{proto: "twirp", meth: "POST", path: []string{"vs.T", "Nope"}, body: j, hdr: map[string]string{"Content-Type": "application/json", "Twirp-Version": "v7"}},
+		{proto: "grpc", meth: "POST", path: []string{"vs.T", "Unary"}, body: grpcFrame(p, false), hdr: map[string]string{"Content-Type": "application/grpc+proto", "Te": "trailers"}},
+		{proto: "grpc", meth: "POST", path: []string{"vs.T", "Bidi"}, body: append(grpcFrame(p, false), grpcFrame(p, false)...), hdr: map[string]string{"Content-Type": "application/grpc+proto", "Te": "trailers"}},
+		{proto: "grpcweb", meth: "POST", path: []string{"vs.T", "Unary"}, body: grpcFrame(p, false), hdr: map[string]string{"Content-Type": "application/grpc-web+proto"}},
+		{proto: "grpcweb", meth: "POST", path: []string{"vs.T", "Nope"}, body: grpcFrame(p, false), hdr: map[string]string{"Content-Type": "application/grpc-web+proto"}},
 	}
 }
 
@@ -103,7 +122,8 @@ func mountMux() (*larking.Mux, error) {
 	}
 	un := func(ctx context.Context, full string, req *dynamicpb.Message) (proto.Message, error) {
 		rep := dynamicpb.NewMessage(repDesc())
-		rep.Set(repDesc().Fields().ByName("id"), protoreflect.ValueOfString(full+"|"+req.Get(reqDesc().Fields().ByName("s")).String()))
+		rep.Set(repDesc().Fields().ByName("id"), protoreflect.ValueOfString(fmt.Sprintf("%s|%s|%s|%d", full, req.Get(reqDesc().Fields().ByName("s")).String(),
+			req.Get(reqDesc().Fields().ByName("t")).String(), req.Get(reqDesc().Fields().ByName("i")).Int())))
 		return rep, nil
 	}
 	st := func(full string, md protoreflect.MethodDescriptor, ss grpcServerStream) error {
@@ -135,9 +155,17 @@ func doMount(h http.Handler, pr mprobe, path string) (digest, tag, text string, 
 			crash = fmt.Sprint(p)
 		}
 	}()
-	req := httptest.NewRequest(pr.meth, "http://verif.test/", bytes.NewReader(pr.body))
-	req.URL = &url.URL{Scheme: "http", Host: "verif.test", Path: path}
+	host := pr.host
+	if host == "" {
+		host = "verif.test"
+	}
+	req := httptest.NewRequest(pr.meth, "http://"+host+"/", bytes.NewReader(pr.body))
+	req.URL = &url.URL{Scheme: "http", Host: host, Path: path, RawQuery: pr.query}
+	req.Host = host
 	req.RequestURI = path
+	if pr.query != "" {
+		req.RequestURI += "?" + pr.query
+	}
 	req.ContentLength = int64(len(pr.body))
 	for k, v := range pr.hdr {
 		req.Header.Set(k, v)
@@ -174,6 +202,9 @@ func doMount(h http.Handler, pr mprobe, path string) (digest, tag, text string, 
 	if tag == "" && res.StatusCode == 404 && strings.HasPrefix(body, "404 page not found") {
 		tag = "servemux404"
 	}
+	if tag == "" && res.StatusCode == 405 && strings.HasPrefix(body, "Method Not Allowed") {
+		tag = "servemux405"
+	}
 	return hex.EncodeToString(hs.Sum(nil))[:16], tag, fmt.Sprintf("%d %s", res.StatusCode, truncate(body, 60)), res.StatusCode, ""
 }
 
@@ -191,7 +222,7 @@ func runMountCase(c MountCase, seed int64) []interface{} {
 	opts = append(opts, larking.MuxHandleOption(pats...))
 	for _, e := range c.Extras {
 		tag := e.Tag
-		opts = append(opts, larking.HTTPHandlerOption(patText(e.Pat), http.HandlerFunc(func(w http.ResponseWriter, r *http.Request) {
+		opts = append(opts, larking.HTTPHandlerOption(extraText(e), http.HandlerFunc(func(w http.ResponseWriter, r *http.Request) {
 			w.Header().Set("X-Extra", tag)
 			w.Write([]byte("extra " + tag))
 		})))
@@ -225,11 +256,14 @@ func runMountCase(c MountCase, seed int64) []interface{} {
 		for _, pr := range mountProbes() {
 			path := append(append([]string{}, pre...), pr.path...)
 			text := "/" + strings.Join(path, "/")
-			if seen[pr.proto+pr.meth+text] {
+			if seen[pr.proto+pr.meth+text+"?"+pr.query+"@"+pr.host] {
 				continue
 			}
-			seen[pr.proto+pr.meth+text] = true
-			ev := MountEv{Ev: "Mount", Case: c.ID, Patterns: c.Patterns, Extras: c.Extras, Path: path, Proto: pr.proto, Bares: []MBare{}}
+			seen[pr.proto+pr.meth+text+"?"+pr.query+"@"+pr.host] = true
+			ev := MountEv{Ev: "Mount", Case: c.ID, Patterns: c.Patterns, Extras: c.Extras, Path: path, Proto: pr.proto, Bares: []MBare{}, Meth: pr.meth, Query: pr.query, Host: pr.host}
+			if ev.Host == "" {
+				ev.Host = "verif.test"
+			}
 			ev.Got, ev.GotTag, ev.Text, ev.Status, ev.Crash = doMount(srv.Handler, pr, text)
 			for _, p := range c.Patterns {
 				if len(p.Segs) <= len(path) && strings.Join(path[:len(p.Segs)], "/") == strings.Join(p.Segs, "/") {
@@ -247,18 +281,36 @@ func runMountCase(c MountCase, seed int64) []interface{} {
 		if e.Pat.Slash {
 			path = append(path, "file.js")
 		}
-		pr := mprobe{"http", "GET", path, nil, nil}
-		ev := MountEv{Ev: "Mount", Case: c.ID, Patterns: c.Patterns, Extras: c.Extras, Path: path, Proto: "http", Bares: []MBare{}}
-		ev.Got, ev.GotTag, ev.Text, ev.Status, ev.Crash = doMount(srv.Handler, pr, "/"+strings.Join(path, "/"))
-		for _, p := range c.Patterns {
-			if len(p.Segs) <= len(path) && strings.Join(path[:len(p.Segs)], "/") == strings.Join(p.Segs, "/") {
-				d, _, _, _, cr := doMount(mux, pr, "/"+strings.Join(path[len(p.Segs):], "/"))
-				if cr == "" {
-					ev.Bares = append(ev.Bares, MBare{N: len(p.Segs), Digest: d})
+		// the handler's own host and method, and for a qualified pattern another host / another method too
+		type hm struct{ host, meth string }
+		own := hm{e.Host, e.Meth}
+		if own.host == "" {
+			own.host = "verif.test"
+		}
+		if own.meth == "" {
+			own.meth = "GET"
+		}
+		tries := []hm{own}
+		if e.Host != "" {
+			tries = append(tries, hm{"verif.test", own.meth})
+		}
+		if e.Meth != "" {
+			tries = append(tries, hm{own.host, "POST"})
+		}
+		for _, t := range tries {
+			pr := mprobe{proto: "http", meth: t.meth, path: path, host: t.host}
+			ev := MountEv{Ev: "Mount", Case: c.ID, Patterns: c.Patterns, Extras: c.Extras, Path: path, Proto: "http", Bares: []MBare{}, Host: t.host, Meth: t.meth}
+			ev.Got, ev.GotTag, ev.Text, ev.Status, ev.Crash = doMount(srv.Handler, pr, "/"+strings.Join(path, "/"))
+			for _, p := range c.Patterns {
+				if len(p.Segs) <= len(path) && strings.Join(path[:len(p.Segs)], "/") == strings.Join(p.Segs, "/") {
+					d, _, _, _, cr := doMount(mux, pr, "/"+strings.Join(path[len(p.Segs):], "/"))
+					if cr == "" {
+						ev.Bares = append(ev.Bares, MBare{N: len(p.Segs), Digest: d})
+					}
 				}
 			}
+			evs = append(evs, ev)
 		}
-		evs = append(evs, ev)
 	}
 	return evs
 }
